@@ -5,6 +5,14 @@ V = os.path.dirname(os.path.dirname(os.path.abspath(__file__)))
 BASE = "cd /repo && /venv/bin/python -m pytest -ra -q -p no:cacheprovider --timeout=900 --continue-on-collection-errors"
 
 CLAIMS = {
+ 'C03': dict(
+    text=("Decides the structural clauses of index/pack agreement on every path, iteration and flag specialisation of the three pack writers (pack_all_loose, direct-to-pack, repack): "
+          "(R1) the offset stored for an object is the append handle's tell() taken before the object's first write with no write/seek in between, the length is tell() - that offset taken after the last write (compressor flush included), the row is staged with both, the key comes from the writer that hashed the bytes, and pack_id is the id the handle was locked for; "
+          "(R2) tell() of the append handle is the true end of file (no tell/write between a seek and its truncate); (R3) uniqueness: hashkey column unique, every INSERT is OR IGNORE or dominated by the already-indexed filter, repack updates by primary key; "
+          "(R4) the manual-recovery script in docs/pages/design.md agrees with the code (table/column names, index file name, pack folder, boolean encoding, raw zlib streams); (R5) repack: committed rows always designate an existing, flushed pack file (or the temporary pack). "
+          "Does NOT decide range arithmetic as values (non-overlap, within-file for all histories); recoverability only as schema/script agreement."),
+    note="Trusted: O_APPEND writes at end of file; SQLite unique index; the documented script is parsed as text blocks of the design page.",
+    technique="per-iteration typestate on inlined CFGs (offset/length pairing, append-handle) + schema/SQL/doc term agreement", ref="5/C03"),
  'C05': dict(
     text=("Decides, from the source, the ordering clauses of crash safety on every path, loop iteration and flag specialisation: "
           "(R1) a loose object is written in the sandbox, flushed and closed, then published by one atomic rename/replace, and nothing opens a file under loose/ for writing; "
